@@ -186,8 +186,11 @@ def _read_config_file(path):
     """Read all the data files under a given path."""
     try:
         # sort based on location by default; this is to ensure 00 is before 01, and before a
-        for fs_obj in sorted(iter_scan(path, follow_symlinks=True)):
-            if not fs_obj.is_reg or "/." in fs_obj.location:
+        # hidden=False: skip dot files and dirs below path; testing the whole
+        # location for "/." also skipped everything once path itself lives
+        # below a dot dir (~/.config/...)
+        for fs_obj in sorted(iter_scan(path, follow_symlinks=True, hidden=False)):
+            if not fs_obj.is_reg:
                 continue
             for lineno, line in read_bash(
                 fs_obj.location, allow_line_cont=True, enum_line=True
